@@ -1,5 +1,7 @@
 #include <primitiv/config.h>
 
+#include <cmath>
+
 #include <primitiv/core/device.h>
 #include <primitiv/core/error.h>
 #include <primitiv/core/shape_ops.h>
@@ -115,7 +117,9 @@ Tensor Device::random_bernoulli(const Shape &shape, float p) {
 
 Tensor Device::random_uniform(
     const Shape &shape, float lower, float upper) {
-  if (!(lower <= upper)) {
+  // The span must be representable: std::uniform_real_distribution requires
+  // upper - lower <= max().
+  if (!(lower <= upper) || !std::isfinite(upper - lower)) {
     PRIMITIV_THROW_ERROR(
         "Invalid parameter of the uniform distribution. lower: " << lower
         << ", upper: " << upper);
